@@ -60,7 +60,7 @@ Plain(op, ins) == DefNode(op, ins)
 NoGS   == [rep |-> <<>>, rep0 |-> <<>>, flt |-> {}, qp |-> <<>>, asis |-> <<>>]
 NoCfg  == [pin |-> <<>>, pa |-> <<>>, pw |-> <<>>, wt |-> "pl"]
 NoSel  == [a |-> <<>>, w |-> <<>>]
-NoPlan == [a0 |-> <<>>, fold |-> FALSE, r |-> <<>>, mps |-> FALSE, int |-> FALSE]
+NoPlan == [a0 |-> <<>>, fold |-> FALSE, r |-> <<>>, x |-> <<>>, mps |-> FALSE, int |-> FALSE]
 Empty  == [dim |-> Dim, c0 |-> C0, sp |-> Sp0, nodes |-> <<>>]
 
 Init == /\ phase = "grow" /\ cur = Empty /\ prev = Empty /\ rnd = 0
@@ -127,8 +127,9 @@ PitExport ==
     /\ phase = "pit"
     /\ prev' = cur
     /\ cur' = ExportArch(cur, MasksOf(cur, f), TOfChoice(cur, tm), fold)
+    /\ plan' = [plan EXCEPT !.x = Append(@, cur')]          \* the replayer reports (drift) if the real pipeline leaves this path
     /\ phase' = "x"
-    /\ UNCHANGED <<rnd, f, tm, fold, gs, cfg, sel, be, plan>>
+    /\ UNCHANGED <<rnd, f, tm, fold, gs, cfg, sel, be>>
 
 (* ------------------------------ MPS ------------------------------------- *)
 T248 == <<2, 4, 8>>
